@@ -55,7 +55,7 @@ def gen_bool(g, vars_, d):
 
 def gen_str(g, vars_, d):
     r = g.r
-    s = Lit(r.choice(['a', 'b c', '', 'x)', '(', 'q,r', '1+1', 'TRUE']))
+    s = Lit(r.choice(['a', 'b c', '', 'x)', '(', 'q,r', '1+1', 'TRUE', 'é', '日本', 'ß+1', '\u212b', '\U0001f600', "it's", 'a\\b', '100%', '$x', '#', '  pad  ']))
     if d <= 0: return s
     other = r.choice([gen_num(g, vars_, d - 1, g.chance(0.5)), gen_bool(g, vars_, d - 1), gen_str(g, vars_, d - 1)])
     return Bin('+', s, other) if g.chance(0.5) else Bin('+', other, s)
@@ -181,6 +181,23 @@ def generate(g, tier):
             lines += [f'FUNC show {nm}', f'    $STRING {text}']
             for lit, v in seq: lines += [f'RUN show {lit}']; exp.append('STRING ' + show(v))
         cases.append(dict(op='compile', src=dict(text='\n'.join(lines)), meta=dict(family='retyped', form='outs', expout=exp)))
+    # decimals that are not exact in binary, quotients that do not terminate, large and tiny magnitudes: ordinary (IEEE double /
+    # unbounded integer) arithmetic, as Python does it — outside the formal model's exact-arithmetic domain, judged by the oracle
+    INEXACT = [Lit(0.1), Lit(0.2), Lit(0.3), Lit(0.7), Lit(1.1), Lit(2.675), Lit(0.0625), Lit(123456.789), Bin('/', Lit(1), Lit(3)), Bin('/', Lit(2), Lit(3)), Bin('/', Lit(10), Lit(7)),
+               Lit(10 ** 20), Lit(2 ** 64 + 1), Bin('^', Lit(2), Lit(100)), Bin('^', Lit(7), Lit(40)), Lit(99999999999999.99), Bin('^', Lit(2), Lit(0.5)), Bin('^', Lit(10), Bin('-', Lit(0), Lit(3)))]
+    for _ in range(count(tier, 200, 2000)):
+        a, b = r.choice(INEXACT), r.choice(INEXACT + [Lit(3), Lit(0.5), Lit(10)])
+        op = r.choice(['+', '-', '*', '/', '//', '%', '<', '>', '==', '!=', '<=', '>='])
+        e = Bin(op, a, b)
+        if op in ARITH and g.chance(0.4): e = Bin(r.choice(['+', '*', '-']), e, r.choice(INEXACT + [Lit(1)]))       # (well-typed: no arithmetic on a truth value)
+        if g.chance(0.3): e = Bin('+', Lit('v='), e)
+        try:
+            v = eval_expr(e, None)
+            if 'e' in repr(v) and isinstance(v, float): continue      # a value Python prints in exponent notation: no such literal/printing in the language to compare with
+            if isinstance(v, float) and (v != v or v in (float('inf'), float('-inf'))): continue
+            if isinstance(v, (int, float)) and not isinstance(v, bool) and abs(v) >= 10 ** 300: continue
+        except (EvalError, OverflowError, ZeroDivisionError, TypeError): continue
+        cases.append(mk_case(g, e, {}, 'inexact'))
     # division by zero in every position
     for op in ('/', '//', '%'):
         for _ in range(count(tier, 10, 60)):
